@@ -426,6 +426,17 @@ func c06RunItems(c *core.Ctx, items []c06Item, web bool) {
 		} else {
 			judge("GetDNSBasicRule", rules.GetDNSBasicRule(rs))
 		}
+		// The candidate slices belong to the caller, who may evaluate them
+		// again: the verdict is the same (an implementation may reorder them,
+		// but must not leave other rules behind than it was given).
+		if !util.EqualStrings(util.Texts(rs), rt) || !util.EqualStrings(util.Texts(src), st) {
+			c.Event("callers_slice_reordered_or_changed", 1)
+		}
+		if web {
+			judge("NewMatchingResult(same slices again)", rules.NewMatchingResult(rs, src).GetBasicResult())
+		} else {
+			judge("GetDNSBasicRule(same slice again)", rules.GetDNSBasicRule(rs))
+		}
 
 		// Engines, on a sample of the permutations, with a random split into lists.
 		if nperm%5 != 1 {
@@ -466,6 +477,7 @@ func c06RunItems(c *core.Ctx, items []c06Item, web bool) {
 			eng := urlfilter.NewDNSEngine(util.Storage(lt...))
 			res, matched := eng.MatchRequest(&urlfilter.DNSRequest{Hostname: "ads.com", ClientName: "Mom", SortedClientTags: []string{"device_pc"}})
 			judge("DNSEngine.MatchRequest", res.NetworkRule)
+			judge("GetDNSBasicRule(DNSResult.NetworkRules)", rules.GetDNSBasicRule(res.NetworkRules))
 			c.Eval(1)
 			if matched != (res.NetworkRule != nil) {
 				c.Violation("matched-flag", nil, rt, "DNSEngine.MatchRequest matched=%v but NetworkRule=%v for %v", matched, res.NetworkRule, rt)
